@@ -4,7 +4,7 @@ import struct
 from fractions import Fraction
 
 ID = "C04"
-LEVEL = "other"
+LEVEL = "proof"
 from lib.core import existing_modules
 LEAN_MODULES = ["Sonic.Props.C04"]
 REQUIRED_THEOREMS = ["Sonic.Props.C04." + n for n in ["C04_tables", "C04_scan_grammar", "C04_int_kinds", "C04_accumulate", "C04_zero", "C04_fast_exact",
@@ -28,13 +28,15 @@ EXPLANATION = ("Proved in Lean for ALL inputs: the power-of-ten tables against e
                "C04_native_path_correct). The run compares each result with Spec.Rne (exact round-to-nearest-even on big naturals, itself "
                "proved against the definition) and with the literal Lean models of the five paths (same value, same error code/offset).")
 ASSUMPTIONS = ["hardware (double)uint64, * and / are correctly rounded (modelled as Rne of the exact result)",
-               "written exponents of absolute value >= 100000 (guard of the theorems): known finding F6 lives there",
+               "number tokens shorter than 2^32 bytes",
                "a fraction-without-exponent token directly followed by '.' (invalid JSON, rejected right afterwards): AtofNative sees the rest "
                "of the buffer and the value handed to the handler is not the token's (C04_native_guard_needed)"]
 TRUSTED = ["Spec.Rne.round (exact big-natural rounding) as oracle; compiled Lean evaluation"]
-LEVEL_TEXT = ("Machine-checked proof (Lean 4) of every path of the number parser model against the exact reference rounding, for all inputs "
-              "inside the stated guards. Level stays 'other' because the full statement is false on the unchanged tree outside the exponent "
-              "guard (known finding F6, reported as KNOWN-FINDING); every input of the run is also checked against the exact reference.")
+LEVEL_TEXT = ("Machine-checked proof (Lean 4) of the complete number parser model against the exact reference: grammar, integer kinds, zero, "
+              "accumulation, and every conversion path (exact fast path, normal-fast, Eisel-Lemire with retry, 800-digit big-decimal fallback) "
+              "for number texts of any length below 2^32 bytes and ANY written exponent (C04_parseNumber_correct; after the fix of finding F6 "
+              "the 64-bit exponent accumulators saturate only where no digit count can compensate). Infinity <-> the infinity error. The model "
+              "is tied to the compiled code by the correspondence run (value, kind, code, offset per path) against Spec.Rne on every input.")
 LEVEL_NOTE = "Trusted: Lean kernel; standard axioms; table translator; IEEE hardware arithmetic; compiled Lean evaluation of the spec."
 TECHNIQUE = "Lean 4 proof of all conversion paths (fast, normal-fast, Eisel-Lemire, big-decimal) + exact big-number reference oracle + differential correspondence"
 
